@@ -68,6 +68,8 @@ type (
 		UnregisterActiveReceiver(sourceShardID history.ClusterShardID)
 		// GetActiveReceiver returns the active receiver for the given source shard
 		GetActiveReceiver(sourceShardID history.ClusterShardID) (ActiveReceiver, bool)
+		// UnregisterLocalReceiver removes the active receiver and its cancel function only if receiver is still the registered one
+		UnregisterLocalReceiver(sourceShardID history.ClusterShardID, receiver ActiveReceiver)
 		// TerminatePreviousLocalReceiver checks if there is a previous local receiver for this shard and terminates it if needed
 		TerminatePreviousLocalReceiver(shardID history.ClusterShardID, logger log.Logger)
 
@@ -1080,6 +1082,22 @@ func (sm *shardManagerImpl) UnregisterActiveReceiver(sourceShardID history.Clust
 	sm.activeReceiversMu.Lock()
 	defer sm.activeReceiversMu.Unlock()
 	delete(sm.activeReceivers, sourceShardID)
+}
+
+// UnregisterLocalReceiver removes the active-receiver entry and the cancel function of a local receiver,
+// but only if receiver is still the one registered for the shard: the cleanup of a terminated incarnation
+// must not remove the entries of its successor. A receiver registers itself before its cancel function,
+// so while it is still the registered receiver the cancel function can only be its own.
+func (sm *shardManagerImpl) UnregisterLocalReceiver(sourceShardID history.ClusterShardID, receiver ActiveReceiver) {
+	sm.activeReceiversMu.Lock()
+	defer sm.activeReceiversMu.Unlock()
+	if current, ok := sm.activeReceivers[sourceShardID]; !ok || current != receiver {
+		return
+	}
+	delete(sm.activeReceivers, sourceShardID)
+	sm.localReceiverCancelFuncsMu.Lock()
+	delete(sm.localReceiverCancelFuncs, sourceShardID)
+	sm.localReceiverCancelFuncsMu.Unlock()
 }
 
 // GetActiveReceiver returns the active receiver for the given source shard
